@@ -22,7 +22,7 @@ lane() {
     git -C $wt checkout -q -- . && git -C $wt apply $p || { echo -e "$p\tAPPLY-FAILED" >> $tmp/out.$k; continue; }
     res=$(echo $ids | tr ' ' '\n' | xargs -P 4 -I{} sh -c 'if timeout 1800 ./check {} 2>&1 | grep -q "^VIOLATION"; then echo {}; fi' | sort | tr '\n' ' ')
     echo -e "$p\t$res" >> $tmp/out.$k
-    echo "$(basename $(dirname $p))/$(basename $p) -> $res"
+    echo "$(basename $(dirname $(dirname $p)))/$(basename $(dirname $p))/$(basename $p) -> $res"
   done < $tmp/list.$k
   git -C $wt checkout -q -- .
 }
